@@ -204,6 +204,8 @@ where
         // The data frame has been written, so unset it
         match self.next.take() {
             Some(Next::Data(frame)) => {
+                #[cfg(feature = "verif-hooks")]
+                crate::verif::ev("codec.data_done", Vec::new);
                 self.last_data_frame = Some(frame);
                 debug_assert!(self.is_empty());
                 ControlFlow::Break
@@ -237,6 +239,14 @@ where
                     return Err(PayloadTooBig);
                 }
 
+                #[cfg(feature = "verif-hooks")]
+                crate::verif::ev("codec.buffer_data", || {
+                    vec![
+                        len as i64,
+                        (len >= self.chain_threshold) as i64,
+                        self.last_data_frame.is_some() as i64,
+                    ]
+                });
                 if len >= self.chain_threshold {
                     let head = v.head();
 
